@@ -63,6 +63,7 @@ static void history_noise(int which, Rng &r, IntPolynomial *ip, TorusPolynomial 
 }
 
 static std::atomic<int> in_flight{0}, max_in_flight{0};
+static std::atomic<int> barrier_waiting{0}; static std::atomic<bool> barrier_open{true};
 static std::atomic<uint64_t> comparisons{0}, mismatches{0}, thread_creations{0}, keygens{0};
 static std::mutex report_mu;
 struct Mismatch { std::string job, pred; int T, tid, round, first_diff; };
@@ -74,8 +75,13 @@ static void worker(int T, int tid, int round, uint64_t seed, int passes, std::se
     IntPolynomial *ip = new_IntPolynomial(N); TorusPolynomial *tp = new_TorusPolynomial(N), *res = new_TorusPolynomial(N);
     LweSample *scratch[2] = {new_LweSample(keys[0].gb->in_out_params), new_LweSample(keys[1].gb->in_out_params)};
     std::vector<uint8_t> ob;
-    int start_delay = (int) r.below(200);
-    for (int i = 0; i < start_delay; i++) sched_yield();
+    if (!barrier_open.load()) {      // released together: every thread does its first FFT at the same moment
+        barrier_waiting++;
+        while (!barrier_open.load()) { /* spin */ }
+    } else {
+        int start_delay = (int) r.below(200);
+        for (int i = 0; i < start_delay; i++) sched_yield();
+    }
     for (int pass = 0; pass < passes; pass++) {
         std::vector<int> order(jobs.size()); for (size_t i = 0; i < order.size(); i++) order[i] = (int) i;
         for (size_t i = order.size(); i > 1; i--) std::swap(order[i - 1], order[r.below(i)]);
@@ -126,7 +132,12 @@ int main(int argc, char **argv) {
     Rng rng(seed * 1000003ull + lambda);
     seed_library(seed * 23 + lambda);
     std::string cfg;
-    { char b[96]; snprintf(b, sizeof b, "%s/%s/%s", flavor_name(), backend_name(), lambda ? (lambda <= 80 ? "default80" : "default128") : "small-n16"); cfg = b; }
+    { char b[96]; snprintf(b, sizeof b, "%s/%s/%s%s", flavor_name(), backend_name(), lambda ? (lambda <= 80 ? "default80" : "default128") : "small-n16", args.i("detached", 0) ? "/detached-keygen" : ""); cfg = b; }
+    bool detached = args.i("detached", 0);
+    // detached history: the main thread never touches the FFT. Keys, jobs and references are produced by a helper thread that
+    // exits; an idle thread then inherits its cached stack; workers are released together by a barrier so that the first
+    // FFT of several threads happens at the same time while no live thread owns any per-thread FFT state.
+    auto setup = [&]() {
     VH_OP("keygen:%s", cfg.c_str());
     for (int ki = 0; ki < 2; ki++) {
         KeyCtx &K = keys[ki];
@@ -158,18 +169,24 @@ int main(int argc, char **argv) {
     }
     VH_OP("reference:%s", cfg.c_str());
     for (auto &j: jobs) run_job(j, j.ref);
-    // the same job after different prefixes on the main thread
+    // the same job after different prefixes on one thread
     { std::set<std::pair<int, int>> pp; worker(0, 0, 0, seed, 2, &pp); for (auto &p: pp) pred_pairs.insert(p); }
+    };
+    if (detached) { std::thread k(setup); k.join(); thread_creations++; } else setup();
+    std::atomic<bool> idle_stop{false}; std::vector<std::thread> idlers;
+    if (detached) for (int i = 0; i < 2; i++) { idlers.emplace_back([&] { while (!idle_stop.load()) usleep(2000); }); thread_creations++; }
     for (int T: Ts) {
         for (int round = 0; round < rounds; round++) {
             VH_OP("round:%s:T=%d", cfg.c_str(), T);
             std::atomic<bool> stop{false};
             std::thread kg;
-            if (with_keygen) { kg = std::thread(keygen_thread, seed + round, &stop, 8); thread_creations++; }
+            if (with_keygen && !detached) { kg = std::thread(keygen_thread, seed + round, &stop, 8); thread_creations++; }
             std::vector<std::thread> th; std::vector<std::set<std::pair<int, int>>> pp(T);
+            if (detached && (round & 1) == 0) { barrier_open = false; barrier_waiting = 0; }
             for (int t = 0; t < T; t++) { th.emplace_back(worker, T, t, round, seed, passes, &pp[t]); thread_creations++; }
+            if (!barrier_open.load()) { while (barrier_waiting.load() < T) sched_yield(); barrier_open = true; }
             for (auto &t: th) t.join();
-            stop = true; if (with_keygen) kg.join();
+            stop = true; if (with_keygen && !detached) kg.join();
             for (auto &s: pp) for (auto &p: s) pred_pairs.insert(p);
             char cell[96]; snprintf(cell, sizeof cell, "%s:T=%d", cfg.c_str(), T); out.cell(cell, (uint64_t) T * passes * jobs.size());
         }
@@ -181,6 +198,7 @@ int main(int argc, char **argv) {
     out.stat(J().s("kind", "concurrency").s("config", cfg).u("comparisons", comparisons.load()).u("mismatches", mismatches.load()).i("max_evaluations_in_flight", max_in_flight.load())
                      .u("thread_creations", thread_creations.load()).u("distinct_job_predecessor_pairs", pred_pairs.size()).u("jobs", jobs.size()).u("keygens_alongside", keygens.load()));
     out.sample(J().s("config", cfg).raw("thread_counts", jarr(Ts)).i("rounds", rounds).u("jobs", jobs.size()).u("comparisons", comparisons.load()).i("max_evaluations_in_flight", max_in_flight.load()).u("distinct_job_predecessor_pairs", pred_pairs.size()).u("keygens_alongside", keygens.load()));
+    idle_stop = true; for (auto &t: idlers) t.join();
     // leave the key sets alive on purpose until exit: threads are gone, nothing else to check; free for the leak checkers
     for (auto &j: jobs) { for (int i = 0; i < 3; i++) if (j.in[i]) delete_LweSample(j.in[i]); if (j.acc) delete_TLweSample(j.acc); if (j.ip) delete_IntPolynomial(j.ip); if (j.tp) delete_TorusPolynomial(j.tp); if (j.ext) delete_LweSample(j.ext); }
     for (int ki = 0; ki < 2; ki++) { delete_gate_bootstrapping_secret_keyset(keys[ki].sk); if (keys[ki].ps) delete keys[ki].ps; if (keys[ki].dp) delete_gate_bootstrapping_parameters(keys[ki].dp); }
